@@ -42,6 +42,7 @@ SSE_RECORDS = {
     "I": b"data: i\r\r",
     "J": b"retry: 5\ndata: j\n\n",
     "K": b"data: k\r\ndata: l\r\n\r\n",  # CRLF between the lines of one event
+    "N": b"data:n\nid:8\n\n",  # no space after the colon (legal SSE framing)
     "H": b"data: z",  # final unterminated event (last position only)
 }
 ND_RECORDS = {
